@@ -249,6 +249,9 @@ def config_oracle(script, impl):
                 stored, listing = dict(cfg), None
         elif op == 'unreadable':
             stored, listing = 'unreadable', None
+        elif op == 'saverace':
+            if out != 'saverace ok':
+                probs.append('saverace: a save that runs next to Config.Update must store ONE valid state of the configuration and return: %s' % out[:160])
         elif op == 'rmmanifest':
             stored, listing = ABSENT, None
         elif op == 'openengine':
